@@ -156,6 +156,9 @@ def run_check(pid, P, tier, seed, replay, wd, t0):
         for s in scns:
             if isinstance(s, dict) and s.get("op") in VIA_OPS and "via" not in s and vrng.random() < 0.25:
                 s["via"] = vrng.randrange(1 << 30)
+        for s in scns:
+            if isinstance(s, dict) and s.get("op") == "div_hist" and s.get("ops") and "copy_at" not in s and vrng.random() < 0.3:
+                s["copy_at"] = vrng.randrange(len(s["ops"]))
     for s in scns:
         s.setdefault("_cmp", None)
         props.normalise_cmp(s)
